@@ -46,7 +46,8 @@ RULE = (
     "length; calc_full_log_probs_chunked with every chunk size 1..T+2 (quick: for the shorter "
     "lengths chunk 1 only through the forward call, then chunk 2 and t+2); the longest batch also as "
     "an offset view behind foreign rows (chunked on every table, forward on every other) and as a "
-    "transposed-dense view (every other table); scalar idx for every index as int and as negative "
+    "transposed-dense view (every other table), as a column slice of a wider batch and as every second row of a taller "
+    "tensor (dense columns, row stride != batch size; chunk sizes 2 and T+2); scalar idx for every index as int and as negative "
     "0-dim / 1-element tensor; per-element idx: for every minimum m one batch holding every "
     "(history, idx>=m) pair, all (T+1)^B idx vectors for B=1 on every table, B=2 on every (quick: every other) "
     "table and for B=3 on every 8th (quick) / 4th (thorough) table; state_dict (every other table also through torch.save/load) "
@@ -672,6 +673,17 @@ def check_model(ctx, V, sos, dicts, hists, index, b3, base_case, save_load=False
                 off_view = torch.cat([front, hist], 0)[2:]
                 compare("chunked/offset-view", lambda: lm.calc_full_log_probs_chunked(off_view, dict(), 2), exp0,
                         {"T": t, "chunk_size": 2, "layout": "offset"}, args=(off_view,))
+                # ---- dense columns but a row stride other than the batch size: a column slice of a wider batch and every
+                # second row of a taller tensor (round 6); all positions at once and in chunks of 2 and of T+2 ----------
+                foreign = (hist + 1).remainder(V)
+                col_view = torch.cat([foreign[:, :1], hist, foreign], 1)[:, 1:1 + hist.size(1)]
+                row_view = torch.stack([hist, foreign], 1).reshape(2 * hist.size(0), hist.size(1))[::2]
+                for vname, vw in (("column-slice", col_view), ("every-second-row", row_view)):
+                    for cs in (2, t + 2):
+                        compare("chunked/%s-view" % vname, lambda: lm.calc_full_log_probs_chunked(vw, dict(), cs), exp0,
+                                {"T": t, "chunk_size": cs, "layout": vname, "row_stride": vw.stride(0)}, args=(vw,))
+                    if every_chunk or index % 2 == (vname == "column-slice"):
+                        compare("full/%s-view" % vname, lambda: lm(vw), exp0, {"T": t, "layout": vname}, args=(vw,))
                 if every_chunk or index % 2 == 0:
                     compare("full/offset-view", lambda: lm(off_view), exp0, {"T": t, "layout": "offset"})
                 if every_chunk or index % 2 == 1:
